@@ -58,9 +58,66 @@ func canon(s string) string {
 	})
 }
 
+// fnKey identifies a function across builds: name, provenance and the types
+// (not the names) of its parameters and results.
 func fnKey(fn *ir.Function) string {
-	return fn.RelString(nil) + " | " + fn.Synthetic + " | " + fn.Signature.String()
+	sig := fn.Signature
+	var b strings.Builder
+	b.WriteString(fn.RelString(nil) + " | " + fn.Synthetic + " | func(")
+	for i := 0; i < sig.Params().Len(); i++ {
+		if i > 0 {
+			b.WriteString(", ")
+		}
+		b.WriteString(types.TypeString(sig.Params().At(i).Type(), nil))
+	}
+	if sig.Variadic() {
+		b.WriteString("...")
+	}
+	b.WriteString(") (")
+	for i := 0; i < sig.Results().Len(); i++ {
+		if i > 0 {
+			b.WriteString(", ")
+		}
+		b.WriteString(types.TypeString(sig.Results().At(i).Type(), nil))
+	}
+	b.WriteString(")")
+	if r := sig.Recv(); r != nil {
+		b.WriteString(" recv " + types.TypeString(r.Type(), nil))
+	}
+	return b.String()
 }
+
+// paramNorm renames the function's parameters (as named by its Signature
+// and by its Params) positionally, for the narrow classification of the one
+// known finding (instance parameter names depend on build order).
+func paramNorm(fn *ir.Function, dump string) string {
+	names := map[string]string{}
+	add := func(n string, i int) {
+		if n != "" && n != "_" {
+			if _, ok := names[n]; !ok {
+				names[n] = fmt.Sprintf("param%d", i)
+			}
+		}
+	}
+	sig := fn.Signature
+	for i := 0; i < sig.Params().Len(); i++ {
+		add(sig.Params().At(i).Name(), i)
+	}
+	for i, p := range fn.Params {
+		add(p.Name(), i)
+	}
+	if len(names) == 0 {
+		return dump
+	}
+	return identRe.ReplaceAllStringFunc(dump, func(w string) string {
+		if r, ok := names[w]; ok {
+			return r
+		}
+		return w
+	})
+}
+
+var identRe = regexp.MustCompile(`[A-Za-z_][A-Za-z0-9_]*`)
 
 func dumpFn(fn *ir.Function) (s string) {
 	defer func() {
@@ -74,6 +131,10 @@ func dumpFn(fn *ir.Function) (s string) {
 	return canon(buf.String())
 }
 
+// normOf maps the dump of a generic instance / instantiation wrapper to the
+// same dump with parameters renamed positionally.
+var normOf = map[string]string{}
+
 // dumpAll returns key -> sorted list of dumps (a multiset).
 func dumpAll(prog *ir.Program) map[string][]string {
 	out := map[string][]string{}
@@ -84,7 +145,11 @@ func dumpAll(prog *ir.Program) map[string][]string {
 			return
 		}
 		seen[fn] = true
-		out[fnKey(fn)] = append(out[fnKey(fn)], dumpFn(fn))
+		d := dumpFn(fn)
+		out[fnKey(fn)] = append(out[fnKey(fn)], d)
+		if strings.HasPrefix(fn.Synthetic, "instance of ") || strings.HasPrefix(fn.Synthetic, "instantiation wrapper of ") {
+			normOf[d] = paramNorm(fn, d)
+		}
 		for _, a := range fn.AnonFuncs {
 			visit(a)
 		}
@@ -121,6 +186,12 @@ func diffDumps(ref, got map[string][]string) (class, detail string) {
 		}
 		for i := range r {
 			if r[i] != g[i] {
+				if rn, ok := normOf[r[i]]; ok {
+					if gn, ok := normOf[g[i]]; ok && rn == gn {
+						// identical up to the names of the parameters of a generic instance
+						return "instance-parameter-names-depend-on-build-order", fmt.Sprintf("function %s differs from the serial build only in the names of its parameters:\n--- serial reference build\n%s\n--- this build\n%s", k, clip(r[i]), clip(g[i]))
+					}
+				}
 				return "ir-differs-from-serial-build", fmt.Sprintf("function %s:\n--- serial reference build\n%s\n--- this build\n%s", k, clip(r[i]), clip(g[i]))
 			}
 		}
@@ -246,6 +317,24 @@ func (r *runner) checkBuilt(prog *ir.Program, p *ir.Package) {
 		r.cnt["functions_checked_at_build_return"]++
 		if fn.Pkg != p {
 			r.cnt["shared_functions_checked_at_build_return"]++
+		}
+		if !found {
+			if gn, ok := normOf[got]; ok {
+				for _, w := range want {
+					if normOf[w] == gn {
+						found = true
+						r.cnt["instance_parameter_names_differ_at_build_return"]++
+					}
+				}
+			} else if strings.HasPrefix(fn.Synthetic, "instance of ") || strings.HasPrefix(fn.Synthetic, "instantiation wrapper of ") {
+				gn := paramNorm(fn, got)
+				for _, w := range want {
+					if normOf[w] == gn {
+						found = true
+						r.cnt["instance_parameter_names_differ_at_build_return"]++
+					}
+				}
+			}
 		}
 		if !found {
 			r.fail("not-fully-built-when-Build-returns", "Build of package %s returned, but function %s (package %v, synthetic %q) reachable from it is not the function the serial build produces:\n--- expected\n%s\n--- found at the moment Build returned\n%s", p.Pkg.Path(), fn.RelString(nil), pkgPath(fn), fn.Synthetic, clip(want[0]), clip(got))
